@@ -304,6 +304,10 @@ def reentrant_probe(ctx):
 
 def correspondence(ctx):
     reentrant_probe(ctx)
+    # "each callback fires once", "applied exactly once or reported as failed": the dispatcher side of it is the callback
+    # contract of the Raft core - the at-most-once / fate records of the shared Raft run count here too
+    from props import raftcommon as R
+    R.account(ctx, R.raft_run(ctx), ('C02',))
     atomicity(ctx)
     n = 1000 if ctx.quick else 12000
     base = ctx.seed * 1000003 % (2 ** 31)
